@@ -70,7 +70,7 @@ func main() {
 		maxPaths  = flag.Int("maxpaths", 200000, "path budget")
 		maxAlloc  = flag.Int("maxalloc", 4096, "physical size limit for symbolic-length allocations")
 		qtimeout  = flag.Int("qtimeout", 10000, "per-query timeout ms")
-		solver    = flag.String("solver", "z3", "z3 | z3-new | cvc5 | cvc5-int")
+		solver    = flag.String("solver", "z3-new", "z3 | z3-new | cvc5 | cvc5-int")
 		workers   = flag.Int("workers", runtime.NumCPU(), "parallel workers")
 		mapperm   = flag.Bool("mapperm", false, "nondeterministic map iteration order")
 		slack     = flag.Int("appendslack", 0, "extra capacity on append reallocation")
@@ -264,7 +264,7 @@ func runEntry(prog *ssa.Program, pkgs []*ssa.Package, entry, pkgPath string, pm 
 		reasons = append(reasons, r)
 	}
 	for k, n := range eng.ends {
-		if !allowed[k] && k != "panic" && k != "unwind" {
+		if !allowed[k] && k != "panic" && k != "unwind" && k != "panic-reported" {
 			inc(fmt.Sprintf("%d paths ended as %s: %v", n, k, eng.endSamples[k]))
 		}
 	}
